@@ -683,6 +683,100 @@ theorem C04_ternary_history_call_as_fresh (c : Fl) (ops : List TerOp) (st : TerS
     rw [hf.2 es h1]
     exact (C04_ternary_object_call_codes c env twin shape x es hes).2.1
 
+/-! ### histories against the CONFIGURED axes; two objects configured with one Python object
+  (second strengthening round, seed C04-7: an in-place normalisation of a list-valued `scale_axis` froze the
+  axes against the rank of the first tensor, for the object itself and for every object sharing the list) -/
+
+private theorem binStep2_view (c : Fl) (st : BinSt2) (w' w : Which) (op : BinOp) :
+    (binStep2 c st (w', op)).view w = binRun c (st.view w) (if w' = w then [op] else op.onOther) := by
+  cases w' <;> cases w <;> cases op <;> rfl
+
+theorem C04_shared_argument_independent (c : Fl) (ops : List (Which × BinOp)) (st : BinSt2) (w : Which) :
+    (binRun2 c st ops).view w = binRun c (st.view w) (projOps w ops) := by
+  induction ops generalizing st with
+  | nil => rfl
+  | cons p ops ih =>
+    obtain ⟨w', op⟩ := p
+    have := ih (binStep2 c st (w', op))
+    simp only [binRun2, List.foldl_cons] at this ⊢
+    rw [this, binStep2_view]
+    simp only [projOps, binRun, List.foldl_append]
+
+private theorem projOps_snoc (w : Which) (ops : List (Which × BinOp)) (op : BinOp) :
+    projOps w (ops ++ [(w, op)]) = projOps w ops ++ [op] := by
+  induction ops with
+  | nil => simp [projOps]
+  | cons p ops ih => obtain ⟨w', o⟩ := p; simp [projOps, ih]
+
+/-- … hence the k-th use of an object of a pair is a first use too: whatever was done to EITHER object
+    before, a call returns what a fresh object with this object's attributes now in force returns -/
+theorem C04_pair_call_as_fresh (c : Fl) (ops : List (Which × BinOp)) (st : BinSt2) (w : Which)
+    (shape : List ℕ) (x : List ℚ) :
+    let own := projOps w ops
+    let twin := BinObj.new (own.foldl BinAttrs.set (st.view w).obj.a)
+    let env := own.foldl Env.step st.env
+    ((binRun2 c st (ops ++ [(w, .call shape x)])).view w).outs =
+        ((binRun2 c st ops).view w).outs ++ [(twin.call c env shape x).1] ∧
+      (∀ es, (twin.call c env shape x).1 = .ok es →
+        ((binRun2 c st (ops ++ [(w, .call shape x)])).view w).obj.scale = some (es.map (·.scale))) := by
+  intro own twin env
+  rw [C04_shared_argument_independent, C04_shared_argument_independent, projOps_snoc]
+  have h := C04_history_call_as_fresh c (projOps w ops) (st.view w) shape x
+  have henv : (st.view w).env = st.env := by cases w <;> rfl
+  simp only [henv] at h
+  exact h
+
+/-- the k-th call of ANY history is `binary` under the configuration read off the attributes NOW in force
+    and the rank of the CURRENT tensor (negative scale axes are counted against THIS rank, not against the
+    rank of an earlier call): every tensor-level theorem above (`C04_scale_group_constant`,
+    `C04_scale_is_group_statistic`, `C04_binary_scale_nonneg`, `C04_binary_po2_scale`, …) applies to it -/
+theorem C04_history_call_config (c : Fl) (ops : List BinOp) (st : BinSt) (shape : List ℕ) (x : List ℚ)
+    (es : List Elt)
+    (h : (binRun c st (ops ++ [.call shape x])).outs = (binRun c st ops).outs ++ [.ok es]) :
+    ∃ cfg, (ops.foldl BinAttrs.set st.obj.a).cfg (ops.foldl Env.step st.env) shape.length = .ok cfg ∧
+      binary c cfg shape x = .ok es ∧
+      (binRun c st (ops ++ [.call shape x])).obj.scale = some (es.map (·.scale)) ∧
+      (binRun c st (ops ++ [.call shape x])).obj.a = ops.foldl BinAttrs.set st.obj.a := by
+  have hf := C04_history_call_as_fresh c ops st shape x
+  simp only at hf
+  rw [hf.1] at h
+  have hes := List.append_cancel_left h
+  simp only [List.cons.injEq, and_true] at hes
+  obtain ⟨cfg, hc, hb, _⟩ := binCall_ok hes
+  refine ⟨cfg, hc, hb, hf.2 es hes, ?_⟩
+  have ha := (C04_history_attrs c (ops ++ [.call shape x]) st).1
+  rw [ha, List.foldl_append]
+  rfl
+
+private theorem terStep2_view (c : Fl) (st : TerSt2) (w' w : Which) (op : TerOp) :
+    (terStep2 c st (w', op)).view w = terRun c (st.view w) (if w' = w then [op] else op.onOther) := by
+  cases w' <;> cases w <;> cases op <;> rfl
+
+/-- the same for two `ternary` / `stochastic_ternary` objects configured with one ndarray alpha / threshold -/
+theorem C04_ternary_shared_argument_independent (c : Fl) (ops : List (Which × TerOp)) (st : TerSt2) (w : Which) :
+    (terRun2 c st ops).view w = terRun c (st.view w) (projOpsT w ops) := by
+  induction ops generalizing st with
+  | nil => rfl
+  | cons p ops ih =>
+    obtain ⟨w', op⟩ := p
+    have := ih (terStep2 c st (w', op))
+    simp only [terRun2, List.foldl_cons] at this ⊢
+    rw [this, terStep2_view]
+    simp only [projOpsT, terRun, List.foldl_append]
+
+/-- the scenario of seed C04-7 in the model: `binary(alpha="auto", scale_axis=[-1])` used on a rank-2
+    tensor and then on a rank-4 tensor has, on the second call, one scale per index of the LAST axis of the
+    rank-4 tensor (positions 0,2 / 1,3), its attributes are what they were, and a second object built from
+    the same list sees nothing of it -/
+example :
+    let a : BinAttrs := ⟨false, .str "auto", .many [-1], .none, .none, .none⟩
+    let st := binRun2 (Fl.exact (1/10000000)) ⟨⟨true⟩, BinObj.new a, BinObj.new a, [], []⟩
+      [(.fst, .call [2, 2] [1, 2, -3, 4]), (.snd, .call [1, 2, 1, 2] [1, -2, 3, -4]), (.fst, .call [1, 2, 1, 2] [1, -2, 3, -4])]
+    (match st.fst.scale, st.snd.scale with
+      | some s, some t => s == t && s[0]! == s[2]! && s[1]! == s[3]! && s[0]! != s[1]!
+      | _, _ => false) = true ∧ st.fst.a.sa = .many [-1] ∧ st.snd.a.sa = .many [-1] := by
+  refine ⟨by decide +kernel, by decide +kernel, by decide +kernel⟩
+
 /-! ### repaired defects at the edges of the argument space: full theorems + regression witnesses
 
   The five defects below were recorded by the strengthening round with `_counterexample` / `_partial`
